@@ -231,6 +231,12 @@ def fact_case(c, idx, A, p, kind, cplx, spd):
     env = [sA]
     checks = []
     nA = SMul(tol2(p), Frob2(V(0)))
+    if c.rng.random() < 0.4 and p >= 64:
+        # the same matrix object factorised earlier at a lower precision: the later call must not reuse that factorisation
+        plo = c.rng.choice([20, 30]); mp.prec = plo
+        try: mp.lu(A)
+        except Exception: pass
+        finally: mp.prec = p
     for fn in ("lu", "LU_decomp"):
         if fn == "lu":
             r_, exc = call(c, fn, lambda: mp.lu(A), A)
@@ -337,6 +343,15 @@ def elementwise_case(c, idx, p, cplx, exact):
            ("conj_transpose", lambda: A.H, H(V(0)))]
     if exact:
         ops.append(("pow%d" % k, lambda: S ** k, Pow(V(3), k)))
+        # products whose partial products need about 2p bits while the entries of the result fit p bits (cancellation):
+        # rows (a, b) against columns (b + s, -a + t) give a*s + b*t
+        a_ = (1 << (p - 5)) + rng.randint(1, 1 << 12); b_ = (1 << (p - 5)) + rng.randint(0, 1 << 12)
+        cols = [(b_ + rng.randint(-2, 2), -a_ + rng.randint(-2, 2)) for _ in range(rng.randint(1, 3))]
+        Mc1 = mp.matrix([[a_, b_]])
+        Mc2 = mp.matrix([[x for x, _ in cols], [y for _, y in cols]])
+        env += [smat(Mc1), smat(Mc2)]; i1 = len(env) - 2
+        ops.append(("mul_cancel", lambda: Mc1 * Mc2, Mul(V(i1), V(i1 + 1))))
+        base["Mc1"] = qprops.raw(Mc1); base["Mc2"] = qprops.raw(Mc2)
     for name, f, model in ops:
         c.count("matrix_" + name.rstrip("0123456789"))
         try:
@@ -464,6 +479,14 @@ def build(rep, tier_, rng):
                 n3 = rng.randint(2, 7); m3 = min(8, n3 + rng.randint(0, 3))
                 k3 = rng.choice(["int", "dy", "dec", "full", "sparse"])
                 A3 = qprops.rand_matrix(rng, mp, m3, n3, k3, cplx)
+                if rng.random() < 0.35:
+                    # graded columns: the part below the diagonal is 2^-20 ... 2^-60 of the diagonal entry (the Householder
+                    # reflection must not cancel alpha against a norm of the same sign)
+                    k3 = "graded"
+                    for j in range(n3):
+                        sc = mp.ldexp(mp.mpf(1), -rng.randint(20, 60))
+                        for i in range(j + 1, m3): A3[i, j] = A3[i, j] * sc
+                        if A3[j, j] == 0: A3[j, j] = rng.choice([-3, 2, 5, -7])
                 qr_case(c, idx, A3, p, k3, cplx, rng.choice(["full", "skinny"]))
             # --- singular
             if idx % 4 == 0:
